@@ -44,8 +44,12 @@ pub fn c08_native<G: AffineRepr + 'static>(seed: u64, maxlen: usize) -> Checks {
     let mut bad = 0usize;
     let mut total = 0usize;
     let mut first = String::new();
-    for g in 0..=4usize {
-        let shape = circuit(g);
+    let mut shapes: Vec<Shape> = (0..=4usize).map(circuit).collect();
+    // gate counts that grow past a power of two in the randomized phase (the batch verifier sizes its
+    // tables from the gate count, which is only final after the closures ran)
+    shapes.push(Shape::new("two_plus_two_phase2", &[Op::Commit, Op::AllocMul, Op::AllocMul, Op::Con], &[&[Op::Chal, Op::AllocMul, Op::AllocMul, Op::Con]]));
+    shapes.push(Shape::new("zero_plus_three_phase2", &[Op::Commit], &[&[Op::Chal, Op::AllocMul, Op::AllocMul, Op::AllocMul, Op::Con]]));
+    for (g, shape) in shapes.into_iter().enumerate() {
         let pad = shape.padded();
         let (shr, proof, pc, bp) = match honest::<G>(&shape, seed, pad) {
             Some(x) => x,
